@@ -39,6 +39,9 @@ Methods == {"efron", "breslow"}
 \* "wide": n = 60, p = 80, support of 14 -- the default working set (p0 = 10) is a strict subset of the features
 \* and grows; with weights = "zeros" there are more unpenalised features (26) than support and than p0
 Sizes == {"small", "wide"}
+\* variants of the target: SqrtLasso on nearly noiseless data (optimal residual a few percent of ||y||: the
+\* documented small-residual guard is at 1 percent); CoxEstimator given a 1-d y ("times, no censoring")
+Variants == {"plain", "high_snr", "y_1d"}
 WideOK == {"Lasso", "WeightedLasso", "ElasticNet", "MCPRegression", "SparseLogisticRegression", "MultiTaskLasso",
            "GeneralizedLinearEstimator", "LinearSVC"}
 GLEComps == {<<"Quadratic", "L1">>, <<"Huber", "L1_plus_L2">>, <<"Logistic", "L1">>, <<"Quadratic", "MCPenalty">>,
@@ -82,12 +85,13 @@ vars == <<stage, a>>
 Init == stage = "est" /\ a = [est |-> "", alpha |-> "0.3", l1_ratio |-> "0.3", C |-> "1", gamma |-> "3",
                               weights |-> "none", groups |-> "int", positive |-> FALSE, fit_intercept |-> TRUE,
                               method |-> "efron", gle |-> <<"Quadratic", "L1">>, storage |-> "dense",
-                              size |-> "small"]
+                              size |-> "small", variant |-> "plain"]
 PickEst == stage = "est" /\ \E e \in Estimators : a' = [a EXCEPT !.est = e] /\ stage' = "args"
 PickArgs == stage = "args" /\
   \E al \in AlphaFracs : \E r \in L1Ratios : \E c \in Cs : \E g \in Gammas : \E w \in WeightKinds :
   \E gk \in GroupKinds : \E p \in BOOLEAN : \E fi \in BOOLEAN : \E m \in Methods : \E k \in GLEComps :
-  \E st \in {"dense", "csc"} : \E sz \in Sizes :
+  \E st \in {"dense", "csc"} : \E sz \in Sizes : \E vr \in Variants :
+    /\ (vr = "high_snr" => a.est = "SqrtLasso") /\ (vr = "y_1d" => a.est = "CoxEstimator")
     /\ (a.est \in WideOK \/ sz = "small")
     /\ (HasWeights(a.est) \/ w = "none")
     /\ (a.est # "GroupLasso" \/ w # "wrong_length")       \* only WeightedLasso / MCPRegression check the length
@@ -103,7 +107,7 @@ PickArgs == stage = "args" /\
     /\ (a.est \notin {"SqrtLasso", "GroupLasso"} \/ st = "dense")
     /\ a' = [a EXCEPT !.alpha = al, !.l1_ratio = r, !.C = c, !.gamma = g, !.weights = w, !.groups = gk,
                       !.positive = p, !.fit_intercept = fi, !.method = m, !.gle = k, !.storage = st,
-                      !.size = sz]
+                      !.size = sz, !.variant = vr]
     /\ stage' = "emit"
 Emit == stage = "emit" /\ PrintT(ToJson([args |-> a, doc |-> Descriptor(a)])) /\ stage' = "done" /\ UNCHANGED a
 Next == PickEst \/ PickArgs \/ Emit
